@@ -7,6 +7,8 @@ import (
 	"time"
 
 	"golang.org/x/tools/go/ssa"
+	"runtime"
+	"sync/atomic"
 )
 
 type option struct {
@@ -288,7 +290,36 @@ func (e *Engine) Explore(init *State) {
 	}
 }
 
+// memory guard: the process must never be killed for memory (a killed check is neither a pass nor a finding);
+// beyond the budget every job that is still exploring ends as inconclusive.
+var (
+	memCheckedAt int64 // unix nanoseconds of the last look
+	memOver      int32
+)
+
+const memBudgetBytes = 36 << 30
+
+func memoryExhausted() bool {
+	now := time.Now().UnixNano()
+	last := atomic.LoadInt64(&memCheckedAt)
+	if now-last > int64(time.Second) && atomic.CompareAndSwapInt64(&memCheckedAt, last, now) {
+		var ms runtime.MemStats
+		runtime.ReadMemStats(&ms)
+		if ms.HeapAlloc > memBudgetBytes {
+			atomic.StoreInt32(&memOver, 1)
+		} else {
+			atomic.StoreInt32(&memOver, 0)
+		}
+	}
+	return atomic.LoadInt32(&memOver) != 0
+}
+
 func (e *Engine) stop() bool {
+	if memoryExhausted() {
+		e.inconclusive("memory budget exceeded (state explosion): exploration stopped")
+		e.stopped = true
+		return true
+	}
 	if e.sol.Err != nil {
 		e.inconclusive("solver failure: %v", e.sol.Err)
 		return true
